@@ -10,7 +10,7 @@ L1_NOTE = "Seam L1: the real leptos_i18n_parser::parse_locales run on project di
 CLAIMED = {
     "C01": (
         "bounded exhaustive enumeration of value forests executed on the real parser (L1) and through generated crates (L3), compared with a reference renderer",
-        "Every value forest over Text/Var/Comp up to the node bound, every whitespace combination inside tags and variables, literal segments made of white space only, every payload pair next to every delimiter, all literal-type pairs, in three containers (top level, nested subkeys, namespaces) is parsed by the real parse_locales and its tree evaluated the way generated code reads it; the result must equal the reference rendering of the AST the files were generated from.",
+        "Every value forest over Text/Var/Comp up to the node bound, every whitespace combination inside tags and variables, literal segments made of white space only, the value kinds under every inherits map of a four-locale set declared in every order, every payload pair next to every delimiter, all literal-type pairs, in three containers (top level, nested subkeys, namespaces) is parsed by the real parse_locales and its tree evaluated the way generated code reads it; the result must equal the reference rendering of the AST the files were generated from.",
         L1_NOTE + " Text alphabet excludes lone '<', '{{', '$t(' (no documented escape).",
         "DESIGN.md §3 C01",
     ),
@@ -22,7 +22,7 @@ CLAIMED = {
     ),
     "C04": (
         "exhaustive enumeration of range declarations x counts (all 256 for i8/u8) on the real loader (L1), in generated match arms of probe crates (L3) and through the real code generator (L2), against an independent spec parser + Rust comparison semantics",
-        "Every 1- and 2-branch (thorough: 3-branch) declaration over the spec alphabet for i8/u8 is evaluated for all 256 counts from the parsed Range<T> structures and selected at parse time through $t(r,{count:n}); wider integer types and floats are covered on boundary neighbourhoods and extremes; three- and four-level reference chains in which a middle key renames the count and outer keys pass an unrelated `count` must keep the range on its renamed count; declarations the statement rejects must be errors, a literal count no branch contains must be an error - never a panic or a wrong branch.",
+        "Every 1- and 2-branch (thorough: 3-branch) declaration over the spec alphabet for i8/u8 is evaluated for all 256 counts from the parsed Range<T> structures and selected at parse time through $t(r,{count:n}); wider integer types and floats are covered on boundary neighbourhoods and extremes; declarations in which two branches share one value; three- and four-level reference chains in which a middle key renames the count and outer keys pass an unrelated `count` must keep the range on its renamed count; declarations the statement rejects must be errors, a literal count no branch contains must be an error - never a panic or a wrong branch.",
         L1_NOTE + " Rust's FromStr/PartialOrd define what bounds mean. Empty/inverted ranges may be rejected or accepted.",
         "DESIGN.md §3 C04",
     ),
@@ -34,7 +34,7 @@ CLAIMED = {
     ),
     "C06": (
         "exhaustive enumeration of reference chains (every name assignment), small digraphs incl. cycles, inherits maps x null/absent targets, locale and namespace variants on the real loader (L1) and in generated probe crates (L3) against a pure-substitution reference",
-        "Every chain of depth <= 2 (thorough 3) over 18 referencing forms (argument texts with multi-byte characters) x 10 target kinds in every assignment of key names, all digraphs on <= 3 nodes, 4-locale projects with explicit-null and inherited targets, two-namespace layouts: accepted projects must render exactly the substitution semantics in every locale, rejected ones must give an Err naming a key.",
+        "Every chain of depth <= 2 (thorough 3) over 18 referencing forms (argument texts with multi-byte characters) x 10 target kinds in every assignment of key names, special targets (groups, missing keys, paths with a dangling middle segment), all digraphs on <= 3 nodes, 4-locale projects with explicit-null and inherited targets, two-namespace layouts: accepted projects must render exactly the substitution semantics in every locale, rejected ones must give an Err naming a key.",
         L1_NOTE + " A target absent from the same locale's file cannot be referenced (documented) - expected Err.",
         "DESIGN.md §3 C06",
     ),
@@ -46,13 +46,13 @@ CLAIMED = {
     ),
     "C08": (
         "exhaustive enumeration of per-locale value-kind tuples for one key on the real loader (L1) against a union-of-signatures model, plus compile probes (supplying exactly the union compiles, omitting any member does not) through the real proc-macro (L3)",
-        "Every 1-, 2- and 3-tuple of value kinds across locales (string, variables with and without formatters, components, three range types, plural, foreign keys renaming or fixing the count or passing an argument into a component / a plural form of the target, null, number, bool): the observed argument set (with count typing and formatter families) must be the union over locales after substitution, and count-typing conflicts must be the documented errors.",
+        "Every 1-, 2- and 3-tuple of value kinds across locales (string, variables with and without formatters, components, three range types, plural, foreign keys renaming the count, fixing it (at an exact value, at the last value of a bounded branch) or passing an argument into a component / a plural form of the target, null, number, bool): the observed argument set (with count typing and formatter families) must be the union over locales after substitution, and count-typing conflicts must be the documented errors.",
         L1_NOTE + " L3: one probe binary per omitted member, judged by `cargo check` diagnostics naming the probe file.",
         "DESIGN.md §3 C08",
     ),
     "C09": (
         "exhaustive enumeration of token strings (<= 5/6 tokens), range specs, JSON shapes, foreign-key forms, inherits loops, file contents and nesting depths executed on the real loader (L1), the real code generator load_locales() (L2) and the build helper (vbuild) under catch_unwind + watchdog + subprocess isolation",
-        "All strings over a 21-token adversarial alphabet up to the bound go through ParsedValue::new and, for shorter ones, through real files and the whole loader - at a plain key and, for the reference forms and short strings, in 9 positions (plural _one / _other / middle form, ordinal _other, range branch and fallback, subkey, non-default locale, reference argument), without and with namespaces; plus all range-count token strings, JSON number classes, small JSON shapes in value position, foreign-key target/argument/position products, whole-file contents, missing project pieces and 1..2000 deep/long constructs in subprocesses: every outcome must be Ok or a non-empty Err - no panic, crash, or hang.",
+        "All strings over a 21-token adversarial alphabet up to the bound go through ParsedValue::new and, for shorter ones, through real files and the whole loader - at a plain key and, for the reference forms and short strings, in 9 positions (plural _one / _other / middle form, ordinal _other, range branch and fallback, subkey, non-default locale, reference argument), without and with namespaces; plus all range-count token strings, JSON number classes (as range bounds and as literal counts handed to a range and to a plural), small JSON shapes in value position, foreign-key target/argument/position products, whole-file contents, missing project pieces and 1..2000 deep/long constructs in subprocesses: every outcome must be Ok or a non-empty Err - no panic, crash, or hang.",
         L1_NOTE + " Depth bound 2000 on an 8 MiB stack.",
         "DESIGN.md §3 C09",
     ),
@@ -70,18 +70,18 @@ CLAIMED = {
     ),
     "C19": (
         "exhaustive enumeration of small configurations x directory layouts with unparsable decoys on the real parse_locales_raw",
-        "Every locale list of length 0..3 (duplicates included) or missing x default listed/unlisted/missing x namespace lists x every single-entry inherits table over known and unknown names x locales-dir, surrounding manifest shapes, every order of the table's fields and unknown fields in every position: accepted iff the statement says so, default first, same set, and the tracked files are exactly the expected (namespace, locale) paths while every decoy file is unparsable.",
+        "Every locale list of length 0..3 (duplicates included) or missing x default listed/unlisted/missing x namespace lists x every single-entry inherits table over known and unknown names x locales-dir, ten surrounding manifest shapes (the table first / alone / indented / CRLF / its header quoted in a comment), every order of the table's fields and unknown fields in every position: accepted iff the statement says so, default first, same set, and the tracked files are exactly the expected (namespace, locale) paths while every decoy file is unparsable.",
         L1_NOTE,
         "DESIGN.md §3 C19",
     ),
     "C12": (
         "exhaustive enumeration of supported-locale sets x request lists over a closed identifier universe through the real Locale::find_locale / find_matchs (RT, harness-defined Locale) and on the generated enum of probe crates (L3: default listed first / last / not at all), relational oracle",
-        "Every subset of size 1..4 of 12 identifiers (language/script/region/variant combinations and `und`) with each member as default, against every request list of length 0..3 over the universe plus unsupported, mis-cased and unparsable entries (1.2e7 calls): the answer must be supported, match the first request anything supports (exactly or as a less specific form), prefer an exact match for that request, fall back to the default, ignore unparsable entries. (L3) the same oracle inside probe crates on the enum the proc-macro generates, for 5 (thorough 9) configurations and every request list of length <= 2 over 18 strings: the default is the configured one wherever it was listed.",
+        "Every subset of size 1..4 of 12 identifiers (language/script/region/variant combinations and `und`) with each member as default, against every request list of length 0..3 over the universe plus unsupported, mis-cased and unparsable entries (1.2e7 calls): the answer must be supported, match the first request anything supports (exactly or as a less specific form), prefer an exact match for that request, fall back to the default, ignore unparsable entries; the same lists also travel as an Accept-Language header through resolve_locale_with_options (the request path of the contexts). (L3) the same oracle inside probe crates on the enum the proc-macro generates, for 5 (thorough 9) configurations and every request list of length <= 2 over 18 strings: the default is the configured one wherever it was listed.",
         "Seam RT: the repo's negotiation code linked natively; the Locale trait is implemented by a harness type whose get_all() is chosen per configuration (the generated enum's side is C13's). BCP-47 parsing is icu_locid's.",
         "DESIGN.md §3 C12",
     ),
     "C15": (
-        "exhaustive enumeration of environments (cookie header x cookie options x Accept-Language x parent x initial locale) on natively created contexts with injected header getters",
+        "exhaustive enumeration of environments (cookie header x cookie options x Accept-Language x parent x initial locale) on natively created contexts with injected header getters (RT), and of header values on generated enums whose default is declared first / in the middle / last / not at all (L3)",
         "All ~1.7e5 environments build real contexts (init_i18n_context_with_options, init_i18n_subcontext_with_options, resolve_locale_with_options, and the generated <I18nContextProvider> / <I18nSubContextProvider> components - the former under every value of its html-attribute props, the latter alone and after a sibling provider holding another locale, which is not the parent) under the ssr feature with effects run to quiescence on a harness-owned executor; the configured locales have mixed specificity (en, fr, de, en-US) and the Accept-Language values include lists whose preferred entry maps to a less specific locale than a later one; the initial locale must follow cookie > Accept-Language best match (the C12 oracle: first matchable entry, exact match preferred) > default, and for sub-contexts cookie > initial > parent > same resolution; invalid cookie values are ignored.",
         "Seam RT (ssr). Client-only branches (navigator.languages, <html lang>) need a browser and are not executed. Accept-Language entries are fed without spaces (splitting is leptos-use's).",
         "DESIGN.md §3 C15",
@@ -94,25 +94,25 @@ CLAIMED = {
     ),
     "C14": (
         "explicit-state exploration of (URL, locale) under locale-switch sequences plus exhaustive single calls, on the real path functions (verif_hooks feature) and on a natively built <I18nRoute> (generate_routes / match_nested over a closed path universe, plain leptos_router as reference)",
-        "For 7 locale sets (names that are prefixes of each other and of path words), 6 base-path spellings and a route table with static / param / optional / splat / localized segments: get_locale_from_path on every short path against a whole-segment oracle, and a BFS over every sequence of <= 3 (thorough 4) locale switches from every page URL in every locale (with/without query, fragment, route table), each step calling the real get_new_path: only the prefix and the localized segments may change, A->B->A returns the original URL, the locale read back is the one switched to, and the real route objects match the URL before and after as the same route with the same parameters. The real <I18nRoute> (children written with i18n_path!) is built natively per locale set: its generate_routes() must be the N+1 families, the segment tables it stores (used for the switches above) the per-locale tables, and match_nested() on every path of <= 3-4 segments over locale names, localized words, glued / truncated / upper-cased names must read a locale only from a first segment equal to a locale name.",
+        "For 7 locale sets (names that are prefixes of each other and of path words), 6 base-path spellings and a route table with static / param / optional / splat / localized segments: get_locale_from_path on every short path - under the base, under near misses of it (segments glued, extended, missing; 2- and 3-segment bases) and elsewhere - against a whole-segment oracle, and a BFS over every sequence of <= 3 (thorough 4) locale switches from every page URL in every locale (with/without query, fragment, route table), each step calling the real get_new_path: only the prefix and the localized segments may change, A->B->A returns the original URL, the locale read back is the one switched to, and the real route objects match the URL before and after as the same route with the same parameters. The real <I18nRoute> (children written with i18n_path!) is built natively per locale set: its generate_routes() must be the N+1 families, the segment tables it stores (used for the switches above) the per-locale tables, and match_nested() on every path of <= 3-4 segments over locale names, localized words, glued / truncated / upper-cased names must read a locale only from a first segment equal to a locale name.",
         "Seam RT via cargo feature verif_hooks (thin re-exports of the private functions; named in the property's hook_needed). The browser glue (effects, navigate, popstate, view_wrapper) needs web_sys and is modelled by the driver. Plain leptos_router (the same table with static segments in one locale's words) is the trusted reference for what a route table matches.",
         "DESIGN.md §3 C14",
     ),
     "C20": (
         "exhaustive enumeration of (formatter/plural family, placement) singles and pairs on the real build helper against a used-family predicate computed from the AST",
-        "Each of 9 families (cardinal / plain / ordinal plurals, 6 formatters) at each of 9 placements (default locale, non-default only, nested subkeys, range branch, plural form, only as a foreign-key target, second namespace, unreachable surplus key, none), namespaced or not, over 5 locale sets (incl. names with variant subtags), plus pairs of placements: the characteristic ICU data key of a family must be requested iff a reachable key uses the family in some locale (plural rules: the key of the kind in use - cardinal or ordinal - is required, no plural at all forbids both); reported locales, language identifiers, namespaces and file list must be exactly the configured ones.",
+        "Each of 9 families (cardinal / plain / ordinal plurals, 6 formatters) at each of 9 placements (default locale, non-default only, next to a non-string literal in the other locale, nested subkeys, range branch, plural form, only as a foreign-key target, second namespace, unreachable surplus key, none), namespaced or not, over 5 locale sets (incl. names with variant subtags), plus pairs of placements: the characteristic ICU data key of a family must be requested iff a reachable key uses the family in some locale (plural rules: the key of the kind in use - cardinal or ordinal - is required, no plural at all forbids both); reported locales, language identifiers, namespaces and file list must be exactly the configured ones.",
         "Seam: leptos_i18n_build::TranslationsInfos linked natively (parser built with `quote` as in a user's host build). The provider generation itself (DatagenProvider::new_latest_tested) needs a CLDR download and is not run: the request is what is checked.",
         "DESIGN.md §3 C20",
     ),
     "C02": (
         "exhaustive enumeration of accessor flavours x scoping prefixes x locales x counts over a project holding every key kind, executed in generated probe crates against the reference renderer",
-        "A project with one key of every kind at depth 1 and 3 in two namespaces and three locales (inheritance, explicit nulls, gaps) is compiled through the real proc-macro; every key is read through td/t/tu x view/string/display, through scope_locale!/scope_i18n! at every proper prefix (one step and chained) and use_i18n_scoped!, and the const accessor chain, with counts {0,1,2,5}, and t! / tu! views built under another locale and rendered after the context moved; the ranges of the project have overlapping branches (an exact value and an alternative list written after the bounds containing them: the view and the string back-ends generate their branch chains separately); every record must equal the reference rendering, hence all flavours agree.",
+        "A project with one key of every kind at depth 1 and 3 in two namespaces and three locales (inheritance, explicit nulls, gaps) is compiled through the real proc-macro; every key is read through td/t/tu x view/string/display, through scope_locale!/scope_i18n! at every proper prefix (one step and chained) and use_i18n_scoped!, and the const accessor chain, with counts {0,1,2,5}, and t! / tu! views built under another locale and rendered after the context moved; the ranges of the project have overlapping branches (an exact value and an alternative list written after the bounds containing them: the view and the string back-ends generate their branch chains separately); every record must equal the reference rendering, hence all flavours agree; in a second project (en, bn, sv) keys carrying number formatters are read through all 9 flavours with positive / negative / zero / fractional / integer-typed values and must equal direct ICU4X calls.",
         "Seam L3: only documented macros inside the probe; context flavours run on a natively created I18nContext (ssr). Quick tier thins view flavours under scoping.",
         "DESIGN.md §3 C02",
     ),
     "C13": (
         "exhaustive near-miss string sweep per locale set inside generated probe crates, against configured names and direct ICU4X queries",
-        "For 8 (thorough 10) locale sets with regions, scripts, variants, near-duplicates and RTL languages, default listed first / last / not at all, the generated enum is checked inside a probe crate: get_all, every string representation, ICU locale / language identifier, CLDR direction, ScopedLocale forwarding, and FromStr / cookie codec / serde over all case flips, prefixes, suffixes, one-character edits, whitespace and separator variants and all strings of length <= 4 over the names' letters.",
+        "For 8 (thorough 10) locale sets with regions, scripts, variants, near-duplicates and RTL languages, default listed first / last / not at all, the generated enum is checked inside a probe crate: get_all, every string representation, ICU locale / language identifier, CLDR direction, ScopedLocale forwarding, matching Serialize / Deserialize calls (round trip through formats that are not self-describing), and FromStr / cookie codec / serde over all case flips, prefixes, suffixes, one-character edits, whitespace and separator variants and all strings of length <= 4 over the names' letters.",
         "Seam L3. ICU4X data is the trusted base for canonical identifiers and directionality. Surrounding whitespace may be accepted or refused (never another locale).",
         "DESIGN.md §3 C13",
     ),
@@ -124,7 +124,7 @@ CLAIMED = {
     ),
     "C18": (
         "exhaustive enumeration of the documented formatter grammar (L1), of declarations x locales x values against direct ICU4X calls in probe crates with all cache histories (L3), and bounded DPOR over thread interleavings of the real cache under loom",
-        "(L1) all 95 formatter texts + 768 whitespace variants must be understood as the documented Formatter value; (L3) each declaration x 7 locales (one rendering another locale's declaration, one with non-Latin default digits) x values (large, zero, small integer, negative) through td_string!/td!/td_format_string! must equal a direct ICU4X call for the locale being rendered, and every sequence of <= 4/5 colliding cache lookups must give the same results whatever ran before; in a build without compiled data the formatters of a registered provider must also work from threads spawned afterwards; (loom) every interleaving up to 2/3 preemptions of concurrent first uses of the cache (3 scenarios) must give the direct ICU4X results without deadlock or panic.",
+        "(L1) all 95 formatter texts + 768 whitespace variants must be understood as the documented Formatter value; (L3) each declaration x 7 locales (one rendering another locale's declaration, one with non-Latin default digits) x values (large, zero, small integer, negative, beyond 2^63, negative zero) through td_string!/td!/td_format_string! must equal a direct ICU4X call for the locale being rendered, and every sequence of <= 4/5 colliding cache lookups must give the same results whatever ran before; in a build without compiled data the formatters of a registered provider must also work from threads spawned afterwards; (loom) every interleaving up to 2/3 preemptions of concurrent first uses of the cache (3 scenarios) must give the direct ICU4X results without deadlock or panic.",
         "Seams L1, L3, and loom via cargo feature verif_loom (cache lock and lazy static taken from loom, cache code unchanged; crate built through a shadow manifest that supplies loom). ICU4X compiled data is the trusted base. `time_length: full|long` is a recorded known finding (ICU4X refuses, the library panics).",
         "DESIGN.md §3 C18",
     ),
